@@ -28,6 +28,7 @@ class VLoop(asyncio.SelectorEventLoop):
         self.max_steps = None
         self.budget_exceeded = False
         self.on_stall = None
+        self.step_cost_ns = 0   # real time that passes per loop iteration (0 = infinitely fast loop)
 
     # ---- clock
     def time(self) -> float:
@@ -46,6 +47,8 @@ class VLoop(asyncio.SelectorEventLoop):
 
     def _run_once(self):
         self.step += 1
+        if self.step_cost_ns and (self._ready or self._scheduled):
+            self._vnow_ns += self.step_cost_ns
         if self.max_steps is not None and self.step > self.max_steps:
             self.budget_exceeded = True
             self.stop()
@@ -92,11 +95,12 @@ def patched_clock(loop: VLoop):
             master.time_ns = saved[4]
 
 
-def run_virtual(main_factory, *, start_ns=1_000_000_000, max_steps=200_000, at_step=None):
+def run_virtual(main_factory, *, start_ns=1_000_000_000, max_steps=200_000, at_step=None, step_cost_ns=0):
     """Run `await main_factory(loop)` on a fresh VLoop. Returns (result, loop).
     result is ('ok', value) | ('stalled', None) | ('budget', None) | ('error', exc)."""
     loop = VLoop(start_ns)
     loop.max_steps = max_steps
+    loop.step_cost_ns = step_cost_ns
     if at_step:
         for k, fns in at_step.items():
             loop.at_step.setdefault(k, []).extend(fns)
